@@ -258,6 +258,16 @@ def nested_batch_family(ev, mods, imps, s, objs, acc):
             HUB.violation("C12", f"decomposition:should_only:{d}:nested-object-batch", "'should only' differs from 'should' and 'should not ... except' for a batch listing a package next to its sub package", w)
         if (out[("should_only", d, True)] == "pass") != (out[("should", d, True)] == "pass" and out[("should_not", d, False)] == "pass"):
             HUB.violation("C12", f"decomposition:should_only_except:{d}:nested-object-batch", "'should only ... except' differs from its decomposition for a batch listing a package next to its sub package", w)
+    # duality with the nested batch on the SUBJECT side: 'S should (not) import [P, P.q]' == '[P, P.q] should (not) be imported by S'
+    other = {"import": "be", "be": "import"}
+    for verb in ("should", "should_not"):
+        for d in rrule.DIRS:
+            dual = run(mk_rule({"verb": verb, "dir": other[d], "exc": False, "subs": list(objs), "objs": [s], "anything": False}, True), ev)[0]
+            acc.evaluated()
+            acc.count("law_duality")
+            acc.count("law_duality_nested_subject_batch")
+            if not dual.startswith("error") and dual != out[(verb, d, False)]:
+                HUB.violation("C12", f"duality:{verb}:nested-subject-batch", f"'S {verb} {d} [P, P.q]' gave {out[(verb, d, False)]} but its dual with the batch as subject gave {dual}", dict(w, dual=dual))
 
 
 def one_family(ev, mods, imps, s, o, acc, fid, mono_edges):
